@@ -209,7 +209,14 @@ func instantiateGenericModel(
 		clonedStruct.Name = StandardModelNameTransformer(clonedStruct.Name, rawParamNames)
 	}
 
-	for fieldIdx, field := range rawStruct.Fields {
+	// The reduced struct holds the serialized fields only - track the position in it separately
+	fieldIdx := -1
+	for _, field := range rawStruct.Fields {
+		if !field.IsJsonVisible() {
+			continue
+		}
+		fieldIdx++
+
 		// Check if this is a generic field. A bit of an ugly heuristic.
 		// Will need to re-work generic parameters later on.
 		if field.Type.Root != nil && field.Type.Root.Kind() == metadata.TypeRefKindParam {
